@@ -493,6 +493,25 @@ func genNum(r *core.Rand, n int) string {
 	return v
 }
 
+// spell writes a position the way a client may: 1*DIGIT allows leading zeros (decimal, never
+// octal); now and then a spelling of another number base that strconv would accept with base 0.
+func spell(r *core.Rand, v int) string {
+	switch r.Intn(16) {
+	case 0:
+		return "0" + strconv.Itoa(v)
+	case 1:
+		return fmt.Sprintf("%04d", v)
+	case 2:
+		return r.Pick("0x", "0o", "0b", "0X") + strconv.Itoa(v)
+	case 3:
+		if v >= 10 {
+			d := strconv.Itoa(v)
+			return d[:1] + "_" + d[1:]
+		}
+	}
+	return strconv.Itoa(v)
+}
+
 func genRange(r *core.Rand, n int) string {
 	unit := "bytes="
 	switch r.Intn(14) {
@@ -527,7 +546,7 @@ func genRange(r *core.Rand, n int) string {
 			if n > 0 { // ordered pair inside (or just past) the content
 				a := r.Intn(n)
 				b := a + r.Intn(n-a+2)
-				s = strconv.Itoa(a) + "-" + strconv.Itoa(b)
+				s = spell(r, a) + "-" + spell(r, b)
 			} else {
 				s = "0-0"
 			}
